@@ -75,8 +75,6 @@ static inline void h_setup_target(void)
 	H_lane.do_targetq = (dispatch_queue_t)&H_target;
 }
 #endif
-/* last log entry helpers */
-#define LAST (__verif_n - 1)
 
 /* ---- the lane under test */
 static inline void h_setup_lane(void)
